@@ -25,6 +25,12 @@ echo "demo_cmd=$DEMO_CMD" >> $R
 stage_demo() {
   PKGDIR=$(echo "$DEMO_CMD" | grep -oE ' \./[A-Za-z0-9_/.-]+/?( |$)' | tail -1 | tr -d ' ')
   if [ -n "$PKGDIR" ] && ls $DST/*_test.go >/dev/null 2>&1; then mkdir -p $WT/$PKGDIR && cp $DST/*_test.go $WT/$PKGDIR/; fi
+  # ... and a delivered demo/ directory is the content of that package directory
+  if [ -n "$PKGDIR" ] && [ -d $DST/demo ] && [ ! -e $WT/$PKGDIR ]; then
+    B=$(basename $PKGDIR)
+    mkdir -p $WT/$PKGDIR
+    if [ -d $DST/demo/$B ]; then cp -r $DST/demo/$B/. $WT/$PKGDIR/; else cp -r $DST/demo/. $WT/$PKGDIR/; fi
+  fi
 }
 run_demo() { stage_demo; (cd $WT && eval "$DEMO_CMD" >$DST/demo-$1.log 2>&1); echo $?; }
 echo "demo_clean_exit=$(run_demo clean)" >> $R
